@@ -1,0 +1,6 @@
+//go:build !verif
+
+package fragswarm
+
+// firstMsgID is the id of the first message told to a peer (an offset added to the per-peer counter).
+func firstMsgID() uint32 { return 0 }
